@@ -272,7 +272,7 @@ var chkHeader = harness.Define("classifier-headers",
 	}, runHeader)
 
 func TestPrefixes(t *testing.T) {
-	chkPrefix.Rapid(t, harness.Pick(3000, 20000))
+	chkPrefix.Rapid(t, harness.Pick(3000, 100000))
 	// one frame of every function explicitly (fc17 has the 2-byte body)
 	for _, fc := range spec.Functions {
 		r := spec.Req{FC: fc, Unit: 16, Tx: 0x0102, Addr: 107, Qty: 3, Value: 0xFF00, WAddr: 9}
@@ -291,7 +291,7 @@ func TestPrefixes(t *testing.T) {
 }
 
 func TestHeaders(t *testing.T) {
-	chkHeader.Rapid(t, harness.Pick(1500, 10000))
+	chkHeader.Rapid(t, harness.Pick(1500, 50000))
 	protos := []uint16{0, 1, 0x0100, 0xFFFF}
 	var lengths []int
 	if harness.Thorough() {
